@@ -423,18 +423,30 @@ def tree_5(ctx, rep):
                     ok = True
     rep.ob('TREE-5', NORMALIZER, 'Normalizer.visit', "return ''.join(self.visit(child) for child in children)", ok,
            'the default node rendering is not the in-order join of all children')
+    # the map lookup: a mapped node / leaf returns its string *whatever that string is* (also ''), everything
+    # else falls through to the default rendering.  Accepted forms: try/except KeyError around map[x], or
+    # `if x in map: return map[x]`.  A truthiness test on the looked-up value (x.get(..) or ..) is wrong for ''.
+    vm = cls.methods.get('visit')
+    if vm is None:
+        rep.ob('TREE-5', NORMALIZER, 'RefactoringNormalizer.visit', 'def visit', False, 'the map lookup vanished')
     for name in ('visit', 'visit_leaf'):
         m = cls.methods.get(name)
         if m is None:
-            rep.ob('TREE-5', NORMALIZER, 'RefactoringNormalizer.%s' % name, 'def %s' % name, False, 'override vanished')
             continue
         arg = m.params()[1]
-        rets = [norm(r.value) for r in walk_own(m.node) if isinstance(r, ast.Return)]
-        ok = set(rets) == {'self._node_to_str_map[%s]' % arg, 'super().%s(%s)' % (name, arg)}
+        rets = [r.value for r in walk_own(m.node) if isinstance(r, ast.Return) and r.value is not None]
+        mapped = [r for r in rets if isinstance(r, ast.Subscript) and norm(r) == 'self._node_to_str_map[%s]' % arg]
+        default = [r for r in rets if norm(r) == 'super().%s(%s)' % (name, arg)]
+        other = [r for r in rets if r not in mapped and r not in default]
         tr = [n for n in walk_own(m.node) if isinstance(n, ast.Try)]
-        ok = ok and len(tr) == 1 and [norm(h.type) for h in tr[0].handlers] == ['KeyError']
-        rep.ob('TREE-5', NORMALIZER, m.qual, 'mapped string, else the default rendering', ok,
-               'refactoring returns %s' % rets)
+        guarded = (len(tr) == 1 and any('KeyError' in norm(h.type) for h in tr[0].handlers if h.type is not None)) or any(
+            isinstance(n, ast.If) and isinstance(n.test, ast.Compare) and isinstance(n.test.ops[0], ast.In)
+            and norm(n.test.left) == arg and norm(n.test.comparators[0]) == 'self._node_to_str_map' for n in walk_own(m.node))
+        ok = bool(mapped) and bool(default) and not other and guarded
+        rep.ob('TREE-5', NORMALIZER, m.qual, 'mapped string (whatever it is), else the default rendering', ok,
+               'refactoring returns %s%s' % ([norm(r) for r in rets],
+                                           ': a truthiness test on the mapped string drops empty replacements' if any(
+                                               isinstance(r, ast.BoolOp) for r in other) else ''))
     rep.minimum('TREE-5', 6)
 
 
